@@ -21,7 +21,7 @@ BOUNDS = (
     "QTable} x tables of 0-6 rows whose centres are drawn (seeded) from the boundary lattice {far outside, window "
     "just touching the image (no overlap), window overlapping by one pixel, -0.5, 0, 0.49, 0.5, interior integer / "
     "half-integer / fractional, n-1, n-0.5, n-1+w/2} per axis, with forced scenarios {first row off-image, all rows "
-    "off-image, single row, empty table, duplicate rows} x model_shape given as keyword (int, (h,w), odd and even, "
+    "off-image, single row, empty table, duplicate rows, one row whose window ends exactly at pixel 0 (no overlap)} x model_shape given as keyword (int, (h,w), odd and even, "
     "1), as a per-row column (ints or (h,w) pairs, also together with the keyword) or None (bounding box) x "
     "local_bkg column present/absent x column naming (parameter names / renamed through params_map, extra ignored "
     "columns) x discretize_method {center, interp, oversample(3,4)} (+ integrate on 2 tiny cases, thorough).  "
@@ -590,12 +590,12 @@ def run(ctx):
     scenarios = ['mixed', 'first-off', 'all-off', 'last-off', 'dup', 'single', 'empty', 'touch0']
     mshapes = [{'mode': 'kw', 'kw': 5}, {'mode': 'kw', 'kw': [3, 6]}, {'mode': 'kw', 'kw': 4}, {'mode': 'kw', 'kw': 1},
                {'mode': 'col1'}, {'mode': 'col2'}, {'mode': 'col1+kw', 'kw': 7}, {'mode': 'bbox'}, {'mode': 'kw', 'kw': [9, 2]}]
-    reps = 3 if T else 1
+    reps = 8 if T else 1
     n = 0
     for rep in range(reps):
         for shape, model, scen in itertools.product(shapes, models, scenarios):
             n += 1
-            if not T and (n % 5) not in (2, 4):      # stride coprime to the loop lengths: every scenario/model/shape is hit
+            if not T and (n % 5) not in (1, 2, 4):      # stride coprime to the loop lengths: every scenario/model/shape is hit
                 continue
             ms = mshapes[int(rng.integers(len(mshapes)))]
             if ms['mode'] == 'bbox' and model['name'] in ('compound', 'psfmodel', 'moffat2d'):
